@@ -384,15 +384,15 @@ def run(tier, seed, replay=None):
     # ---- targeted search (DESIGN 3.5): proof or correspondence broke but no failing input yet -> bigger budget on the
     #      functions whose model and implementation disagree (same streams), judged by the same oracle
     if (R.proof_broken or R.corr_broken) and not unknown and not replay:
-        sus = sorted({c["fn"] for c in getattr(R, "mismatch_cases", [])}) or sorted(
+        sus = sorted({c["fn"] for c in getattr(R, "mismatch_cases", [])} | set(getattr(R, "suspect_functions", []))) or sorted(
             {fn for fn, st in per_fn.items() if st.get("undecided") and "circle" not in fn})
         extra = []
         for c in getattr(R, "mismatch_cases", [])[:25]:
             extra += variants(c)
         for fn in sus[:6]:
             ka, kb = pl.kinds_of(fn)
-            uniq = list(dict.fromkeys(pl.stream_mix(ka, kb)))
-            extra += [pl.gen_pair(R.rng, fn, uniq[k % len(uniq)]) for k in range(400)]
+            mixl = sorted(pl.stream_mix(ka, kb))          # weighted: structural streams of the pair of kinds count more
+            extra += [pl.gen_pair(R.rng, fn, mixl[k % len(mixl)]) for k in range(600)]
         extra = [c for c in extra if not (c["fn"] in EPS_FUNCS and in_band(c))]
         if extra:
             res2, _ = c10.run_impl_cases(PID, extra, tag="search")
